@@ -572,7 +572,12 @@ static std::string exec_line(World*& W, long lineno, const std::string& line) {
         long i = t.l(), j = t.l();
         EnsembleAverage EA(W->s(), W->h(), W->quad_op(i, j), W->dm());
         EA.prepare();
-        J.kvc("v", EA.getResult()); return J.done();
+        J.kvc("v", EA.getResult());
+        EA.prepare();                       // a repeated prepare() must be a no-op (ComputableObject convention)
+        J.kvc("v2", EA.getResult());
+        EnsembleAverage EB(EA);             // copy keeps the result
+        J.kvc("vcopy", EB.getResult());
+        return J.done();
     }
 
     // ---------------- field operators ----------------
@@ -661,6 +666,13 @@ static std::string exec_line(World*& W, long lineno, const std::string& line) {
                     EnsembleAverage EB(W->s(), W->h(), W->quad_op(c, d), W->dm());
                     X.subtractDisconnected(EA, EB);
                 }
+                else if (mode == 4) {       // averages that the caller has already prepared (and read)
+                    EnsembleAverage EA(W->s(), W->h(), W->quad_op(a, b), W->dm());
+                    EnsembleAverage EB(W->s(), W->h(), W->quad_op(c, d), W->dm());
+                    EA.prepare(); EB.prepare();
+                    (void)EA.getResult(); (void)EB.getResult();
+                    X.subtractDisconnected(EA, EB);
+                }
                 continue;
             }
             long k = t.l();
@@ -722,9 +734,14 @@ static std::string exec_line(World*& W, long lineno, const std::string& line) {
 
     // ---------------- vertex ----------------
     if (cmd == "vertex") {
-        // vertex <src> i j k l N lo hi : all triples in [lo,hi]^3 : operator(), value(), chi, and the four G's on [lo,hi]
+        // vertex <src> i j k l <W or W1,W2,..> lo hi : the same Vertex4 object is compute()d with each window size in turn;
+        // after every compute() all triples in [lo,hi]^3 are read through operator(); value(), chi and the four G's once
         std::string src = t.word();
-        long i = t.l(), j = t.l(), k = t.l(), l = t.l(), N = t.l(), lo = t.l(), hi = t.l();
+        long i = t.l(), j = t.l(), k = t.l(), l = t.l();
+        std::string ws = t.word();
+        long lo = t.l(), hi = t.l();
+        std::vector<long> windows;
+        { std::istringstream wss(ws); std::string tok; while (std::getline(wss, tok, ',')) windows.push_back(strtol(tok.c_str(), 0, 10)); }
         TwoParticleGF X(W->s(), W->h(), W->c_of(src, i), W->c_of(src, j), W->cdag_of(src, k), W->cdag_of(src, l), W->dm());
         X.prepare(); X.compute(false, std::vector<freq_tuple>(), W->comm);
         GreensFunction G13(W->s(), W->h(), W->c_of(src, i), W->cdag_of(src, k), W->dm());
@@ -733,14 +750,26 @@ static std::string exec_line(World*& W, long lineno, const std::string& line) {
         GreensFunction G23(W->s(), W->h(), W->c_of(src, j), W->cdag_of(src, k), W->dm());
         G13.prepare(); G13.compute(); G24.prepare(); G24.compute(); G14.prepare(); G14.compute(); G23.prepare(); G23.compute();
         Vertex4 V(X, G13, G24, G14, G23);
-        V.compute(N);
-        std::string so = "[", sv = "[", sc = "[";
+        std::string steps = "[";
+        for (size_t w = 0; w < windows.size(); w++) {
+            V.compute(windows[w]);
+            if (w) steps += ",";
+            std::string so = "[";
+            bool first = true;
+            for (long n1 = lo; n1 <= hi; n1++) for (long n2 = lo; n2 <= hi; n2++) for (long n3 = lo; n3 <= hi; n3++) {
+                if (!first) so += ","; first = false;
+                so += JOut::cnum(V(n1, n2, n3));
+            }
+            steps += so + "]";
+        }
+        J.kvraw("ops", steps + "]");
+        std::string sv = "[", sc = "[";
         bool first = true;
         for (long n1 = lo; n1 <= hi; n1++) for (long n2 = lo; n2 <= hi; n2++) for (long n3 = lo; n3 <= hi; n3++) {
-            if (!first) { so += ","; sv += ","; sc += ","; } first = false;
-            so += JOut::cnum(V(n1, n2, n3)); sv += JOut::cnum(V.value(n1, n2, n3)); sc += JOut::cnum(X(n1, n2, n3));
+            if (!first) { sv += ","; sc += ","; } first = false;
+            sv += JOut::cnum(V.value(n1, n2, n3)); sc += JOut::cnum(X(n1, n2, n3));
         }
-        J.kvraw("op", so + "]"); J.kvraw("value", sv + "]"); J.kvraw("chi", sc + "]");
+        J.kvraw("value", sv + "]"); J.kvraw("chi", sc + "]");
         std::string g13 = "[", g24 = "[", g14 = "[", g23 = "[";
         for (long n = lo; n <= hi; n++) {
             if (n != lo) { g13 += ","; g24 += ","; g14 += ","; g23 += ","; }
